@@ -368,32 +368,34 @@ def gen_case(rng):
         if rng.random() < 0.7:
             setup.append({'op': 'enter', 'via': rng.choice([HA, HB]), 'ns': NS, 'sid': nm,
                           'room': {'r': rng.choice(['r1', 'r2'])}})
-    # emits with callbacks from hA to clients of hB: acknowledgements will travel the channel
-    n_cb = rng.randint(1, 3)
-    for _ in range(n_cb):
+    # emits with callbacks, interleaved: hA -> clients of hB (acknowledgements travel the channel),
+    # hB -> clients of hA (hA holds relay entries), hA -> its own clients (user and relay entries
+    # under one key): the per-host ack ids collide
+    target_a = rng.choice(names_a)
+    plan = [(HA, rng.choice(['b0', 'b1'])) for _ in range(rng.randint(1, 3))]
+    plan += [(HB, target_a if rng.random() < 0.7 else rng.choice(names_a)) for _ in range(rng.randint(0, 2))]
+    plan += [(HA, target_a if rng.random() < 0.7 else rng.choice(names_a)) for _ in range(rng.randint(0, 2))]
+    if rng.random() < 0.3:
+        plan.append((HB, rng.choice(['b0', 'b1'])))
+    rng.shuffle(plan)
+    for via, to in plan:
         i = nxt()
-        setup.append({'op': 'emit', 'via': HA, 'ns': NS, 'to': {'s': rng.choice(['b0', 'b1'])}, 'skip': None,
-                      'cb': i, 'idx': i, 'data': 'int'})
-    # ... and from hB to clients of hA: hA holds relay entries
-    for _ in range(rng.randint(0, 2)):
-        i = nxt()
-        setup.append({'op': 'emit', 'via': HB, 'ns': NS, 'to': {'s': rng.choice(names_a)}, 'skip': None,
-                      'cb': i, 'idx': i, 'data': 'none'})
-    # the user callbacks registered on hA: (key, id) — ids count per key from 1
-    per_key = collections.Counter()
-    user_cbs = []
-    for op in setup:
-        if op['op'] == 'emit' and op['via'] == HA and op['cb'] is not None:
-            per_key[op['to']['s']] += 1
-            user_cbs.append((op['to']['s'], per_key[op['to']['s']]))
+        setup.append({'op': 'emit', 'via': via, 'ns': NS, 'to': {'s': to}, 'skip': None, 'cb': i, 'idx': i,
+                      'data': rng.choice(['int', 'none'])})
+    tab = CbTable({'setup': setup})
+    user_cbs = tab.slots_list()
     ctx = {'a_sids': names_a, 'user_cbs': user_cbs, 'n': nxt}
     stream = []
     faults = {}
-    asked = collections.Counter()       # b-client -> how many acknowledgements it has been asked
-    for op in setup:
-        if op['op'] == 'emit' and op['via'] == HA and op['cb'] is not None:
-            asked[op['to']['s']] += 1
+    asked = collections.Counter({k: len(v) for k, v in tab.asked.items()})
     acked = collections.Counter()
+    a_order = {}
+    for nm in names_a:
+        order = list(range(asked[nm]))
+        rng.shuffle(order)                       # acknowledgements out of issue order ...
+        if order and rng.random() < 0.5:
+            order.append(rng.choice(order))      # ... and a duplicate
+        a_order[nm] = order
     n_items = rng.randint(4, 22)
     alive_a = list(names_a)
     while len(stream) < n_items:
@@ -424,6 +426,11 @@ def gen_case(rng):
                 faults[str(len(stream) - 1)] = 'app'
             elif y < 0.4:
                 faults[str(len(stream) - 1)] = 'srv'
+        elif x < 0.90 and any(a_order[nm] for nm in names_a):
+            nm = rng.choice([n for n in names_a if a_order[n]])
+            n = a_order[nm].pop(0)
+            stream.append({'k': 'op', 'op': {'op': 'ack', 'ns': NS, 'sid': nm, 'n': n,
+                                             'args': rng.choice([[], [n], ['a', n]])}})
         else:
             cands = [b for b in ('b0', 'b1') if acked[b] < asked[b]]
             if not cands:
@@ -615,12 +622,14 @@ def run_model(drv, case, real):
         drv.ask({'op': 'c', 'do': c07.op_to_wire(op)})
         drv.ask({'op': 'c', 'do': {'op': 'drain'}})
     entries = []
-    chan = None
-    unmodelled = 0
+    built = []
     for i, item in enumerate(case['stream']):
         fault = case['faults'].get(str(i), 'none')
         if item['k'] == 'op':
             r = drv.ask({'op': 'c', 'do': c07.op_to_wire(item['op'])})
+            for o in r['out']:
+                if o['k'] == 'callback':
+                    built.append(('cb', int(o['tok']), [C.w2j(a) for a in o['args']]))
             n_after = int(r['chan'])
             for j in range(n_after - len(r['pub']), n_after):
                 entries.append({'chan': j, 'fault': fault})
@@ -644,7 +653,7 @@ def run_model(drv, case, real):
     rooms = sorted((C.w2s(e[0]), repr(C.w2s(e[1])) if e[1] is not None else '', C.w2s(e[2])) for e in rooms)
     return {'frames': obs['frames'], 'app': [(a[0], a[1]) if a[0] == 'disc' else a for a in obs['app']],
             'log': log, 'alive': bool(r['alive']), 'rooms': rooms,
-            'pub': [c07.pub_from_wire(p) for p in r['pub']], 'drv': drv}
+            'pub': [c07.pub_from_wire(p) for p in r['pub']], 'drv': drv, 'built_app': built}
 
 
 def model_has_cb(drv, key, i):
@@ -674,43 +683,114 @@ def inert_by_statement(case, i, item):
     return False
 
 
-def expected_callbacks(case):
-    """which application callbacks the listener of hA must invoke, in order (model-free)"""
-    outstanding = {}
-    per_key = collections.Counter()
-    asked = collections.defaultdict(list)       # b-client -> [(key, id)] in the order it was asked
-    for op in case['setup']:
-        if op['op'] == 'emit' and op['via'] == HA and op['cb'] is not None:
+class CbTable:
+    """The statement's view of who must be called back (model-free): the callback slots of host hA
+    — a user callback sits where `emit(..., callback=cb)` put it, a relay entry stands for an event
+    that a client of hA was asked to acknowledge and names the host that must be called back — and,
+    for clients of hB, what their acknowledgements mean for hA."""
+
+    def __init__(self, case):
+        self.ctr = collections.Counter()
+        self.slots = {}
+        self.asked = collections.defaultdict(list)      # client -> what its n-th acknowledgement stands for
+        a_clients = {op['name'] for op in case['setup'] if op['op'] == 'connect' and op['h'] == HA}
+        for op in case['setup']:
+            if op['op'] != 'emit' or op['cb'] is None:
+                continue
             key = op['to']['s']
-            per_key[key] += 1
-            outstanding[(key, per_key[key])] = op['cb']
-            asked[key].append((key, per_key[key]))
-    out = []
-    for i, it in enumerate(case['stream']):
-        fault = case['faults'].get(str(i))
-        hit = None
+            if op['via'] == HA:
+                self.ctr[key] += 1
+                u = (key, self.ctr[key])
+                self.slots[u] = ('user', op['cb'])
+                if key in a_clients:
+                    self.ctr[key] += 1
+                    self.slots[(key, self.ctr[key])] = ('relay', HA, u)
+                    self.asked[key].append(('slot', (key, self.ctr[key])))
+                else:
+                    self.asked[key].append(('msg', u))
+            else:
+                if key in a_clients:
+                    self.ctr[key] += 1
+                    self.slots[(key, self.ctr[key])] = ('relay', HB, None)
+                    self.asked[key].append(('slot', (key, self.ctr[key])))
+                else:
+                    self.asked[key].append(('hB', op['cb']))
+        self.a_clients = a_clients
+        self.hb_done = set()
+
+    def trigger(self, slot, args, out):
+        """`trigger_callback` on hA; args None = cannot be unpacked"""
+        e = self.slots.pop(slot, None)
+        if e is None or args is None:
+            return
+        if e[0] == 'user':
+            out.append(('cb', e[1], list(args)))
+        elif e[1] == HA:
+            self.trigger(e[2], args, out)
+        # a relay for another host: the acknowledgement is published, nothing is completed here
+
+    def ack(self, sid, n, args, out):
+        """a client acknowledges the n-th event that asked it to (at the moment the item is built)"""
+        if n >= len(self.asked[sid]):
+            return
+        e = self.asked[sid][n]
+        if e[0] == 'slot':
+            self.trigger(e[1], args, out)
+        elif e[0] == 'hB' and (sid, n) not in self.hb_done:
+            self.hb_done.add((sid, n))
+            out.append(('cb', e[1], list(args)))
+
+    def slots_list(self):
+        return sorted(self.slots)
+
+
+def expected_callbacks(case):
+    """-> (callbacks that must run while the stream is built, callbacks the listener of hA must run)"""
+    tab = CbTable(case)
+    built = []
+    for it in case['stream']:
         if it['k'] == 'op' and it['op']['op'] == 'ack':
             op = it['op']
-            if op['n'] < len(asked[op['sid']]):
-                hit = (asked[op['sid']][op['n']], list(op['args']))
+            if op['sid'] in tab.a_clients or (op['n'] < len(tab.asked[op['sid']])
+                                              and tab.asked[op['sid']][op['n']][0] == 'hB'):
+                tab.ack(op['sid'], op['n'], op['args'], built)
+    out = []
+    sent = set()
+    for i, it in enumerate(case['stream']):
+        fault = case['faults'].get(str(i))
+        n0 = len(out)
+        if it['k'] == 'op' and it['op']['op'] == 'ack' and it['op']['sid'] not in tab.a_clients:
+            op = it['op']
+            if op['n'] < len(tab.asked[op['sid']]) and tab.asked[op['sid']][op['n']][0] == 'msg' \
+                    and (op['sid'], op['n']) not in sent:
+                sent.add((op['sid'], op['n']))
+                tab.trigger(tab.asked[op['sid']][op['n']][1], op['args'], out)
+        elif it['k'] == 'op' and it['op']['op'] == 'disconnect' and fault != 'srv':
+            key = it['op']['sid']
+            for slot in [sl for sl in tab.slots if sl[0] == key]:
+                del tab.slots[slot]
         elif it['k'] == 'raw' and it['g']['t'] in ('pickle', 'dict', 'json') and isinstance(it['g']['v'], dict):
             v = it['g']['v']
             if v.get('method') == 'callback' and v.get('host_id') == HA and isinstance(v.get('sid'), dict) \
-                    and '$sid' in v['sid'] and isinstance(v.get('id'), int) and not isinstance(v.get('id'), bool):
+                    and '$sid' in v['sid'] and isinstance(v.get('id'), int) and not isinstance(v.get('id'), bool) \
+                    and 'args' in v:
                 a = v.get('args')
                 if isinstance(a, dict) and '$tuple' in a:
                     a = a['$tuple']
                 if isinstance(a, (str, dict)):
                     a = list(a)                 # `callback(*args)` unpacks characters / keys
                 if isinstance(a, list):
-                    hit = ((v['sid']['$sid'], v['id']), list(a))
-                elif 'args' in v and (a is None or isinstance(a, (int, float))):
-                    outstanding.pop((v['sid']['$sid'], v['id']), None)     # removed, never invoked
-        if hit and hit[0] in outstanding:
-            out.append(('cb', outstanding.pop(hit[0]), hit[1]))
-            if fault == 'fatal':
-                break
-    return out
+                    tab.trigger((v['sid']['$sid'], v['id']), a, out)
+                elif a is None or isinstance(a, (int, float)):
+                    tab.trigger((v['sid']['$sid'], v['id']), None, out)
+            elif v.get('method') == 'disconnect' and isinstance(v.get('sid'), dict) and '$sid' in v['sid'] \
+                    and v.get('host_id') != HA and v.get('namespace', NS) in (NS, None) and 'method' in v:
+                key = v['sid']['$sid']
+                for slot in [sl for sl in tab.slots if sl[0] == key]:
+                    del tab.slots[slot]
+        if fault == 'fatal' and len(out) > n0:
+            break
+    return built, out
 
 
 def compare_runs(with_g, without_g):
@@ -752,10 +832,14 @@ def judge(ctx, drv, family, case):
                 bad_oracle.append('hA re-applied its own emit %r' % (f[2][0],))
     # 4. callbacks: an acknowledgement addressed to hA completes the callback it names, once; one
     #    addressed to anybody else completes nothing
-    want_cb = expected_callbacks(case)
+    want_built, want_cb = expected_callbacks(case)
     got_cb = [a for a in obs['app'] if a[0] == 'cb']
     if jl(got_cb) != jl(want_cb):
-        bad_oracle.append('callbacks invoked %r, required %r' % (got_cb, want_cb))
+        bad_oracle.append('callbacks invoked by the listener %r, required %r' % (got_cb, want_cb))
+    got_built = [a for a in obs['built_app'] if a[0] == 'cb']
+    if jl(got_built) != jl(want_built):
+        bad_oracle.append('client acknowledgements while the stream was built invoked %r, required %r' % (
+            got_built, want_built))
     if bad_oracle:
         ctx.violation('oracle', '%s: %s' % (family, bad_oracle[0]),
                       dict(case, family=family, failures=bad_oracle[:6], observed=jl(obs)))
@@ -769,6 +853,9 @@ def judge(ctx, drv, family, case):
     for key in ('frames', 'app', 'log', 'rooms', 'pub'):
         if jl(obs[key]) != jl(model[key]):
             bad.append('%s: implementation %r, model %r' % (key, obs[key], model[key]))
+    if jl([a for a in obs['built_app'] if a[0] == 'cb']) != jl(model['built_app']):
+        bad.append('callbacks while the stream was built: implementation %r, model %r' % (
+            obs['built_app'], model['built_app']))
     if (obs['ended'] == 'ok') != model['alive']:
         bad.append('ended: implementation %r, model alive=%r' % (obs['ended'], model['alive']))
     for key, i in obs['cbs']:
